@@ -13,7 +13,10 @@ One1(m) == << Op("Rgate", <<a345>>, <<m>>), OpH("Rgate", <<a345>>, <<m>>), Op("R
               Op("Sgate", <<Q(4, 3), A0>>, <<m>>), Op("Xgate", <<Q(1, 2)>>, <<m>>), Op("Kgate", <<Z(1)>>, <<m>>),
               OpH("Kgate", <<Z(1)>>, <<m>>),
               \* two amounts that agree to four significant digits -- different programs all the same
-              Op("Xgate", <<Q(10001, 1000)>>, <<m>>), Op("Xgate", <<Q(10004, 1000)>>, <<m>>) >>
+              Op("Xgate", <<Q(10001, 1000)>>, <<m>>), Op("Xgate", <<Q(10004, 1000)>>, <<m>>),
+              \* measurements <<angle, select, has_select>>: the same quadrature without and with (two different) post-selection values
+              Op("MeasureHomodyne", <<A0, Zero, Zero>>, <<m>>), Op("MeasureHomodyne", <<A0, Q(1, 2), One>>, <<m>>),
+              Op("MeasureHomodyne", <<A0, Q(-1, 4), One>>, <<m>>), Op("MeasureHomodyne", <<APi2, Zero, Zero>>, <<m>>) >>
 Two1(a, b) == << Op("BSgate", <<a345, A0>>, <<a, b>>), Op("CXgate", <<One>>, <<a, b>>), Op("MZgate", <<a345, a435>>, <<a, b>>),
                  Op("S2gate", <<Q(4, 3), A0>>, <<a, b>>), Op("CZgate", <<One>>, <<a, b>>) >>
 RECURSIVE CatM(_, _)
